@@ -4,6 +4,7 @@ import (
 	"encoding/hex"
 	"fmt"
 	"reflect"
+	"strings"
 	"sync"
 	"testing"
 
@@ -101,6 +102,12 @@ func genLogon(t *rapid.T, supplementary bool, fill int) *GenLogon {
 		}
 		g.Names = append(g.Names, genName(t, f, min, 20, supplementary))
 	}
+	g.NullEmpty = rapid.Bool().Draw(t, "null-empty")
+	if rapid.IntRange(0, 2).Draw(t, "slack") == 0 {
+		for range nameFields {
+			g.Slack = append(g.Slack, rapid.IntRange(0, 2).Draw(t, "slack-chars"))
+		}
+	}
 	g.U16 = []uint16{rapid.Uint16().Draw(t, "LogonCount"), rapid.Uint16().Draw(t, "BadPasswordCount")}
 	for _, f := range []string{"UserID", "PrimaryGroupID", "UserFlags", "UserAccountControl", "SubAuthStatus", "FailedILogonCount"} {
 		g.U32 = append(g.U32, rapid.Uint32().Draw(t, f))
@@ -117,7 +124,7 @@ func genLogon(t *rapid.T, supplementary bool, fill int) *GenLogon {
 	}
 	if ne > 0 && rapid.IntRange(0, 3).Draw(t, "extra-dup") == 0 {
 		// an extra SID that repeats a domain group: the composition must not list it twice
-		if len(g.Groups) >= 2 {
+		if len(g.Groups) >= 2 && len(g.Domain.Subs) < 15 {
 			g.Extra[0] = GenSID{Auth: g.Domain.Auth, Subs: append(append([]uint32{}, g.Domain.Subs...), g.Groups[0])}
 		}
 	}
@@ -240,7 +247,9 @@ func genStructural(t *rapid.T, c Case) Case {
 		c.DataOrder, c.Gap = nil, nil
 	case "duplicate-differing":
 		// a second logon-information or client-information buffer with other contents: the first one counts
-		cand := indexOf(c.Bufs, func(b Buf) bool { return b.Src == "win2k:logon" || b.Src == "ms:logon" || b.Src == "trust:logon" || b.Src == "win2k:client" || b.Src == "ms:client" })
+		cand := indexOf(c.Bufs, func(b Buf) bool {
+			return b.Src == "win2k:logon" || b.Src == "ms:logon" || b.Src == "trust:logon" || b.Src == "win2k:client" || b.Src == "ms:client"
+		})
 		if len(cand) == 0 {
 			return c
 		}
@@ -510,7 +519,7 @@ func patchChangesOneField(c Case) error {
 
 func TestProp(t *testing.T) {
 	r := evid.Start(t, "C19", "exploration")
-	for _, n := range []string{"layout", "attr", "attr-utf16", "large", "enum", "flip", "e2e"} {
+	for _, n := range []string{"layout", "attr", "attr-utf16", "large", "enum", "flip", "e2e", "e2e-gen"} {
 		evid.Reg(r, n, Eval)
 	}
 	if r.Replay() {
@@ -543,7 +552,7 @@ func TestProp(t *testing.T) {
 			first := harness == 1
 			mu.Unlock()
 			if first {
-				r.Inconclusive("harness self-disagreement in check %s: %s: %s", check, v.Sig, v.Msg)
+				r.Inconclusive("harness self-disagreement in check %s: %s: %s case=%s", check, v.Sig, v.Msg, caseKey(c))
 			}
 			r.Count("", "harness-error")
 			return
@@ -597,7 +606,7 @@ func TestProp(t *testing.T) {
 
 	// ---- 1. layouts: structure and signature-level tampering -------------------------------
 	r.Rule("layout (rapid): base {Windows-issued PAC, Microsoft example, trust-domain logon info, logon info built from drawn values} x server/KDC checksum type {-138,15,16,19,20}^2 with random keys of the matching etype x RODC identifier present/absent on each signature x 0-4 optional buffers (UPN_DNS_INFO captured or generated, six claims samples, empty claims, PAC_ATTRIBUTES, PAC_REQUESTOR, credentials, unknown type) x header order permuted x payload order permuted x extra padding / non-zero padding; then one of {none, remove a buffer, duplicate a buffer, duplicate logon/client info with other contents behind or before the original}; then one of {none, wrong key, one key bit, declared server type != algorithm (known, des3, unknown ids), declared KDC type != algorithm, signature zero / random / the KDC's / computed with the KDC signature not zeroed / computed over the unzeroed PAC / other key usage, single bit flip (crash-isolated)}; expectation from construction and, independently, from the reference verifier on the presented octets; accepted PACs have every reported attribute compared with the reference decoding. Non-trivial: everything but the captured PAC as captured; distinct by the whole Case")
-	r.Rapid("layout", r.N(1500, 30000), func(t *rapid.T) {
+	r.Rapid("layout", r.N(4000, 40000), func(t *rapid.T) {
 		c := genValid(t, "layout", true)
 		c = genStructural(t, c)
 		c = genTamper(t, c, true)
@@ -617,7 +626,7 @@ func TestProp(t *testing.T) {
 		}
 		run(check, c, rt)
 	}
-	r.Rapid("attr", r.N(1200, 20000), func(t *rapid.T) {
+	r.Rapid("attr", r.N(3000, 30000), func(t *rapid.T) {
 		c := genValid(t, "attr", true)
 		c, ok := genPatch(t, c, false)
 		if !ok {
@@ -646,28 +655,12 @@ func TestProp(t *testing.T) {
 	}
 
 	// ---- 2b. names outside the Basic Multilingual Plane --------------------------------------
-	r.Rule("attr-utf16 (rapid): as attr, two adjacent UTF-16 code units of a name (logon info, client info, UPN_DNS_INFO) overwritten by a surrogate pair, or a generated logon info whose names contain supplementary-plane characters: the reported name must be the encoded one")
-	r.Rapid("attr-utf16", r.N(150, 1500), func(t *rapid.T) {
-		var c Case
-		ok := true
-		if rapid.Bool().Draw(t, "generated") {
-			c = genValid(t, "attr", false)
-			g := genLogon(t, true, 0)
-			i := indexOf(c.Bufs, func(b Buf) bool { return srcType(b) == 1 })[0]
-			c.Bufs[i] = Buf{Src: "gen:logon", Gen: g}
-		} else {
-			c, ok = genPatch(t, genValid(t, "attr", false), true)
-		}
-		if !ok {
-			r.Count("", "generator-discard")
-			return
-		}
-		run("attr-utf16", c, t)
-	})
+	r.Rule("attr-utf16 (enumerated): two adjacent UTF-16 code units of every non-empty name of the Windows-issued logon info, of the client-info name and of the UPN / DNS names overwritten by the surrogate pair of U+1F600, U+10000, U+10FFFF or U+1D11E (first and last position), re-signed: the reported name must be the encoded one")
+	utf16Enum(r, run)
 
 	// ---- 2c. large accounts -----------------------------------------------------------------
 	r.Rule("large (rapid): logon info built from drawn values with 300-1500 further groups (buffers of 2.5-13 KiB, beyond the 4096-octet read-ahead of the NDR decoder), correctly signed: must be accepted and reported faithfully")
-	r.Rapid("large", r.N(60, 600), func(t *rapid.T) {
+	r.Rapid("large", r.N(100, 1000), func(t *rapid.T) {
 		c := genValid(t, "layout", false)
 		g := genLogon(t, false, rapid.IntRange(300, 1500).Draw(t, "fill-groups"))
 		i := indexOf(c.Bufs, func(b Buf) bool { return srcType(b) == 1 })[0]
@@ -676,7 +669,7 @@ func TestProp(t *testing.T) {
 	})
 
 	// ---- 3. bounded-exhaustive structure ----------------------------------------------------
-	r.Rule("enum: for each of three bases (Windows-issued buffers incl. UPN, Microsoft example, trust-domain logon info + claims) x every pair of server/KDC checksum types (25) with seeded keys: valid; each buffer removed; each buffer duplicated (in front and behind); every RODC combination; wrong key; every key bit (thorough; quick: 16 bits); every other declared server type from {-138,15,16,19,20,12,0,1,7,8,-1,17,18,10}; every other declared KDC type of the five; the six signature substitutions; eleven other key usages")
+	r.Rule("enum: for each of three bases (Windows-issued buffers incl. UPN, Microsoft example, trust-domain logon info + claims) x every pair of server/KDC checksum types (25) with seeded keys: valid; each buffer removed; each buffer duplicated (in front and behind); logon / client info duplicated with other contents (in front and behind: the first one must be reported); every RODC combination; wrong key; every key bit (thorough; quick: 16 bits); every other declared server type from {-138,15,16,19,20,12,0,1,7,8,-1,17,18,10}; every other declared KDC type of the five; the six signature substitutions; eleven other key usages")
 	enumStructure(r, run)
 	r.Exhaustive("enum: bases x checksum-type pairs x {remove, duplicate} of every buffer x RODC combinations x declared types x signature substitutions")
 
@@ -685,6 +678,43 @@ func TestProp(t *testing.T) {
 
 	// ---- 5. end to end through VerifyAPREQ --------------------------------------------------
 	e2eChecks(r, record)
+}
+
+func utf16Enum(r *evid.Run, run runFn) {
+	m, err := materials()
+	if err != nil {
+		return
+	}
+	li, err := pacfmt.ParseLogonInfo(m.src["win2k:logon"].Data)
+	if err != nil {
+		return
+	}
+	type target struct {
+		buf   int
+		field string
+		n     int
+	}
+	var ts []target
+	for i, u := range []pacfmt.UnicodeString{li.EffectiveName, li.FullName, li.LogonScript, li.ProfilePath, li.HomeDirectory, li.HomeDirectoryDrive, li.LogonServer, li.LogonDomainName} {
+		if len(u.Chars) >= 2 {
+			ts = append(ts, target{0, nameFields[i] + ".chars", len(u.Chars)})
+		}
+	}
+	ts = append(ts, target{1, "Name", 9}, target{2, "UPN", 21}, target{2, "DNS", 11})
+	k := 0
+	for _, tg := range ts {
+		for _, rn := range []rune{0x1f600, 0x10000, 0x10ffff, 0x1d11e} {
+			for _, pos := range []int{0, tg.n - 2} {
+				alg := pacfmt.SigTypes[k%len(pacfmt.SigTypes)]
+				k++
+				sk, kk := seededKeys(r.Seed(), fmt.Sprintf("c19/utf16/%d", k), alg, alg)
+				c := Case{Kind: "attr", Bufs: append([]Buf{}, enumBases["win2k"]...), SrvAlg: alg, KDCAlg: alg, SrvKey: sk, KDCKey: kk, T: Tamper{Kind: "none"}}
+				v := rn - 0x10000
+				c.Bufs[tg.buf].Patch = []Patch{{Field: tg.field, Index: pos, Value: uint64(0xd800 + v>>10)}, {Field: tg.field, Index: pos + 1, Value: uint64(0xdc00 + v&0x3ff)}}
+				run("attr-utf16", c, nil)
+			}
+		}
+	}
 }
 
 func bytesToU64(b []byte) uint64 {
@@ -738,6 +768,17 @@ func enumStructure(r *evid.Run, run runFn) {
 			for _, at := range []int{0, n} {
 				c = mk()
 				d := c.Bufs[i]
+				c.Bufs = append(append(append([]Buf{}, c.Bufs[:at]...), d), c.Bufs[at:]...)
+				run("enum", c, nil)
+			}
+		}
+		// a second logon-information / client-information buffer with other contents, behind and in front of
+		// the original: the first in PAC_INFO_BUFFER order is the one that must be reported
+		for i, p := range []Patch{{Field: "UserID", Value: 500}, {Field: "Name", Value: 'Z'}} {
+			for _, at := range []int{0, n} {
+				c := mk()
+				d := c.Bufs[i]
+				d.Patch = []Patch{p}
 				c.Bufs = append(append(append([]Buf{}, c.Bufs[:at]...), d), c.Bufs[at:]...)
 				run("enum", c, nil)
 			}
@@ -820,6 +861,13 @@ func flipLayouts(r *evid.Run) []Case {
 		c.Fill = 0xa5
 		c.Gap = []int{0, 1, 0, 0, 0, 0}
 	})
+	// the Windows-issued buffers re-signed with AES256 twice, claims, a second client-info and a second KDC
+	// signature buffer (ignored duplicates whose octets are still signed)
+	add("win2k-dups", nil, 16, 16, func(c *Case) {
+		c.Bufs = []Buf{{Src: "win2k:logon"}, {Src: "win2k:client"}, {Src: "win2k:upn"}, {Src: "claims:str"}, {Src: "sig:server"}, {Src: "sig:kdc", RODC: &id1},
+			{Src: "win2k:client", Patch: []Patch{{Field: "Name", Value: 'X'}}}, {Src: "sig:kdc"}}
+	})
+	add("ms-sha384", enumBases["ms"], 20, 19, nil)
 	if r.Quick() {
 		return out
 	}
@@ -877,7 +925,7 @@ func flipLayouts(r *evid.Run) []Case {
 }
 
 func enumFlips(r *evid.Run, record recordFn) {
-	r.Rule("flip (exhaustive per layout): EVERY single-bit flip of the whole signed PAC, evaluated in crash-isolated child processes with a capped address space (gokrb5 decodes the NDR buffers before it verifies; a flipped conformance count or cbBufferSize asks for gigabytes). Quick: the Windows-issued PAC as captured under its real key, the Microsoft example re-signed (HMAC-MD5 / AES128, both RODC identifiers, reversed header), the trust-domain PAC with claims (SHA256-128 / SHA384-192, permuted payloads, padding 0xa5). Thorough: + every server checksum type x 40 seeded layouts. Oracle: rejected (error, panic or death of the process, labelled) unless the bit lies in the KDC signature value, which is zeroed before hashing and which the service cannot check: those must be accepted with unchanged attributes. The reference verifier is run on every flipped PAC and must agree with that expectation")
+	r.Rule("flip (exhaustive per layout): EVERY single-bit flip of the whole signed PAC, evaluated in crash-isolated child processes with a capped address space (gokrb5 decodes the NDR buffers before it verifies; a flipped conformance count or cbBufferSize asks for gigabytes). Quick: the Windows-issued PAC as captured under its real key, the Microsoft example re-signed (HMAC-MD5 / AES128, both RODC identifiers, reversed header), the trust-domain PAC with claims (SHA256-128 / SHA384-192, permuted payloads, padding 0xa5), the Windows-issued buffers with claims and duplicated client-info / KDC-signature buffers (AES256 / AES256), the Microsoft example under SHA384-192 / SHA256-128. Thorough: + every server checksum type x 40 seeded layouts. Oracle: rejected (error, panic or death of the process, labelled) unless the bit lies in the KDC signature value, which is zeroed before hashing and which the service cannot check: those must be accepted with unchanged attributes. The reference verifier is run on every flipped PAC and must agree with that expectation")
 	layouts := flipLayouts(r)
 	type chunk struct {
 		li, lo, hi int
@@ -917,6 +965,8 @@ func enumFlips(r *evid.Run, record recordFn) {
 	}
 	close(next)
 	var failed sync.Once
+	var cmu sync.Mutex
+	causes := map[string]int{}
 	for w := 0; w < nw; w++ {
 		wg.Add(1)
 		go func(f *flipper) {
@@ -932,8 +982,15 @@ func enumFlips(r *evid.Run, record recordFn) {
 					// labels: where the bit lies and what happened
 					r.Label("flip-region:" + reg)
 					r.Label("flip-outcome:" + reg + ":" + res.Outcome)
-					if b.hasKDC && b.kdcValue.Contains(res.Bit / 8) {
+					if b.hasKDC && b.kdcValue.Contains(res.Bit/8) {
 						r.Label("flip-kdc-signature-value-bit (expected to pass)")
+					}
+					if res.Note != "" {
+						cmu.Lock()
+						if n := res.Note; len(causes) < 12 || causes[n] > 0 || !strings.Contains(n, "out of memory") {
+							causes[n]++
+						}
+						cmu.Unlock()
 					}
 					record("flip", cc, res.V, res.Outcome, nil, nil)
 				})
@@ -947,4 +1004,5 @@ func enumFlips(r *evid.Run, record recordFn) {
 	wg.Wait()
 	r.Exhaustive("flip: every single-bit flip of every listed layout")
 	r.Extra("flip_layouts", len(layouts))
+	r.Extra("flip_worker_deaths", causes)
 }
